@@ -189,6 +189,8 @@ def make_nodes(kind, names, log=None):
 
 def printer_of(pname):
     from calmjs.parse.unparsers.es5 import pretty_printer, minify_printer
+    # ('pretty!raw': the same printer, the helper called with sourcemap_normalize_mappings=False)
+    pname = pname.partition('!')[0]
     return pretty_printer('  ') if pname == 'pretty' else minify_printer(obfuscate=True, drop_semi=True)
 
 
@@ -255,6 +257,8 @@ def run_write(ctx, arr, fault=None):
         map_arg = Stream(log, 'map', **kw_map)
         streams.append(map_arg)
     kwargs = {'sourcemap_normalize_paths': normalize_paths}
+    if pname.endswith('!raw'):
+        kwargs['sourcemap_normalize_mappings'] = False
     if url_kind == 'none':
         kwargs['source_mapping_url'] = None
     elif url_kind == 'explicit':
@@ -308,7 +312,7 @@ def audit_fault_free(ctx, arr, obs):
         frags.extend(tuple(f) for f in printer_of(pname)(t))
     text = ''.join(f[0] for f in frags)
     sink = pyio.StringIO()
-    mappings, sources, names = sm.write(iter(frags), sink)
+    mappings, sources, names = sm.write(iter(frags), sink, normalize=not pname.endswith('!raw'))
     ctx.hit('sourcemap.write')
     if map_kind == 'none':
         if written != text:
@@ -560,6 +564,14 @@ def arrangements(ctx):
                 k += 1
                 if k % ctx.nshards == ctx.shard:
                     yield ('factory', mk, names_kind, 'single', 'minify_obfuscate', 'default', True, (prog,))
+    # the mapping normalisation switched off (the lower-level API with normalize=False is the reference then)
+    for j, prog in enumerate(PROGRAMS):
+        for mk in ('same', 'factory', 'open'):
+            k += 1
+            if k % ctx.nshards == ctx.shard:
+                yield ('factory', mk, 'relative', 'single' if j % 2 else 'list',
+                       'pretty!raw' if j % 3 else 'minify_obfuscate!raw', 'default', True,
+                       (prog,) if j % 2 else (prog, PROGRAMS[(j + 1) % len(PROGRAMS)]))
     # output streams that declare an encoding: the inline map is written in it and says so; what it cannot
     # represent cannot be written
     for prog in PROGRAMS:
